@@ -14,19 +14,23 @@ for sd in sorted(os.listdir("/verif/seeded")):
         if not k.startswith(sd + ":"):
             continue
         prop = k.split(":")[1]
+        first = k.endswith(":before-strengthening")
         mm = re.search(r"exit (\d+)", v["summary"])
         ex = int(mm.group(1)) if mm else -1
         lem = ""
         if v["detail"]:
             lem = v["detail"][0].split(":")[0].strip()
-        det.append({"check": prop, "exit": ex, "lemma": lem, "wall_s": v["wall_s"]})
+        det.append({"check": prop, "exit": ex, "lemma": lem, "wall_s": v["wall_s"], "first_run_before_strengthening": first})
     m["detected_by"] = det
-    m["detected"] = any(d["exit"] == 1 for d in det)
+    m["detected"] = any(d["exit"] == 1 and not d["first_run_before_strengthening"] for d in det)
     json.dump(m, open(mp, "w"), indent=1)
     rows.append((sd, m.get("breaks", []), det))
 print("| seed | file(s) changed | check → outcome (lemma) |")
 print("|---|---|---|")
 for sd, br, det in rows:
     files = sorted(set(re.findall(r"^\+\+\+ b/(\S+)", open("/verif/seeded/%s/patch.diff" % sd).read(), re.M)))
-    out = "; ".join("%s: %s%s" % (d["check"], {1: "VIOLATION", 0: "**missed**", 2: "inconclusive (exit 2)"}.get(d["exit"], "?"), (" (" + d["lemma"] + ")") if d["lemma"] and d["exit"] == 1 else "") for d in det) or "not run yet"
+    det.sort(key=lambda d: (d["check"], not d["first_run_before_strengthening"]))
+    out = "; ".join("%s%s: %s%s" % (d["check"], " (first run, before the check was strengthened)" if d["first_run_before_strengthening"] else "",
+                                    {1: "VIOLATION", 0: "missed" if d["first_run_before_strengthening"] else "**missed**", 2: "inconclusive (exit 2)"}.get(d["exit"], "?"),
+                                    (" (" + d["lemma"] + ")") if d["lemma"] and d["exit"] == 1 else "") for d in det) or "not run yet"
     print("| %s | %s | %s |" % (sd, ", ".join(files), out))
